@@ -72,6 +72,14 @@ pub fn normalise_type(ty: &syn::Type) -> String {
             if r.mutability.is_some() { "mut " } else { "" },
             normalise_type(&r.elem)
         ),
+        syn::Type::BareFn(f) => {
+            let args: Vec<String> = f.inputs.iter().map(|a| normalise_type(&a.ty)).collect();
+            let ret = match &f.output {
+                syn::ReturnType::Type(_, t) => format!(" -> {}", normalise_type(t)),
+                syn::ReturnType::Default => String::new(),
+            };
+            format!("fn({}){}", args.join(", "), ret)
+        }
         other => other.to_token_stream().to_string(),
     }
 }
